@@ -23,6 +23,7 @@ import (
 	"fmt"
 	"io"
 	"os"
+	"path"
 	"os/exec"
 	"path/filepath"
 	"runtime"
@@ -260,6 +261,10 @@ func (e *c34Env) boundaryPayloads() []c34Payload {
 		{"unclean-destinations", []wire.Content{c34File(j("bin/tool"), "/etc/demo/tool"), {Src: "/etc/demo/tool", Dst: "../etc/demo/link", Type: "symlink"},
 			{Dst: "../../var/lib/demo", Type: "dir"}, c34File(j("etc/app.conf"), "/var/lib/demo/x/../app.conf"), c34File(j("share/doc/README"), "usr//share/./doc/README"),
 			{Src: j("tree"), Dst: "../usr/share/demo-tree", Type: "tree"}}},
+		// the root directory itself, declared and as the destination of a tree (rpm only: rpmpack leaves the root out;
+		// for the tar formats an entry that denotes the root is the recorded finding C05-root-destination)
+		{"root-directory-rpm", []wire.Content{{Dst: "/", Type: "dir"}, c34File(j("bin/tool"), "/usr/bin/tool")}},
+		{"root-directory-rpm", []wire.Content{{Src: j("tree"), Dst: "/", Type: "tree"}, c34File(j("bin/tool"), "/opt/tool")}},
 		{"long-names", []wire.Content{c34File(j("bin/tool"), "/opt/long/"+strings.Repeat("d", 60)+"/"+strings.Repeat("n", 120)+".txt"),
 			c34File(j("etc/app.conf"), "/opt/long/"+strings.Repeat("e", 91)+"/"+strings.Repeat("f", 90)+"/"+strings.Repeat("g", 110)),
 			{Src: "/" + strings.Repeat("t", 130), Dst: "/opt/long/" + strings.Repeat("l", 101), Type: "symlink"},
@@ -458,6 +463,9 @@ func (e *c34Env) boundaryCases() []c34Case {
 				mtl = "/mtime-unset"
 			}
 			for _, f := range Formats {
+				if p.Class == "root-directory-rpm" && f != "rpm" {
+					continue
+				}
 				var comps []string
 				switch f {
 				case "deb":
@@ -1579,6 +1587,15 @@ func (e *c34Env) analyse(fam, format string, s *PkgSpec, data []byte, res *c34Re
 			}
 			cp[n] = i
 			cpNames = append(cpNames, n)
+			// every entry is a real path: absolute, lexically clean, not the root itself, not empty
+			if n == "" || n == "/" || n[0] != '/' || path.Clean(n) != n {
+				res.f04("cpio-entry-name-not-a-clean-absolute-path", fmt.Sprintf("the payload holds an entry named %q", ce.Name))
+			}
+		}
+		for _, f := range x.Files {
+			if n := f.Name; n == "" || n == "/" || n[0] != '/' || path.Clean(n) != n {
+				res.f04("header-file-name-not-a-clean-absolute-path", fmt.Sprintf("the header lists a file named %q", f.Name))
+			}
 		}
 		hs, ps := sha256.Sum256(x.HeaderRaw), sha256.Sum256(x.PayloadRaw)
 		sig := func(tag int) (decode.RpmTag, bool) { t, ok := x.Sig[tag]; return t, ok }
